@@ -1892,7 +1892,7 @@ fn c18_call_errors(rt: &FfiRuntime) -> Stats {
             st.violation(Violation { signature: "MACHINERY:ffi-client-did-not-connect".into(), summary: "queue-full scenario".into(), replay: json!({}) });
         }
     }
-    // (c) parameter validation: invalid ranges, null channel: error code, at most one callback, on_destroy once
+    // (c) parameter validation: invalid ranges, null channel: error code, exactly one completion callback, on_destroy once
     {
         let peer = spawn_peer(PeerBehaviour::Good, false);
         let fc = FfiClient::new(rt, peer.addr, 4, (1000, 1000), decode_nothing());
@@ -1921,9 +1921,9 @@ fn c18_call_errors(rt: &FfiRuntime) -> Stats {
             st.class("call:parameter-validation");
             st.observe(&(op, s, c, rc));
             let sent = peer.requests.lock().unwrap().len();
-            if rc != want_rc || comps.len() > 1 || dn != 1 || sent != 0 {
+            if rc != want_rc || comps.len() != 1 || dn != 1 || sent != 0 {
                 st.violation(Violation {
-                    signature: "parameter-validation".into(),
+                    signature: format!("parameter-validation:{op:?}:{s}:{c}"),
                     summary: format!("{op:?} start {s} count {c}: rc {rc} (expected {want_rc}), callbacks {comps:?}, on_destroy {dn}, frames sent {sent}"),
                     replay: json!({"kind": "c18-call-errors"}),
                 });
@@ -1941,7 +1941,7 @@ fn c18_call_errors(rt: &FfiRuntime) -> Stats {
         let cb = ffi::WriteCallback { on_complete: Some(write_complete), on_failure: Some(cb_failure), on_destroy: Some(ctx_destroy::<CbState>), ctx: ctx_new(st2.clone(), d2.clone()) };
         let rc = unsafe { ffi::rodbus_client_channel_write_single_register(null_mut(), ffi::RequestParam { unit_id: 1, timeout: 10 }, ffi::RegisterValue { index: 0, value: 0 }, cb) };
         st.evaluations += 1;
-        if rc != perr(ffi::ParamError::NullParameter) || st2.lock().unwrap().completions.len() > 1 || *d2.lock().unwrap() != 1 {
+        if rc != perr(ffi::ParamError::NullParameter) || st2.lock().unwrap().completions.len() != 1 || *d2.lock().unwrap() != 1 {
             st.violation(Violation { signature: "null-channel".into(), summary: format!("rc {rc} callbacks {:?} on_destroy {}", st2.lock().unwrap().completions, d2.lock().unwrap()), replay: json!({}) });
         }
     }
@@ -2152,7 +2152,6 @@ pub fn check_c18(tier: &str) -> i32 {
         rep.require_class(c);
     }
     rep.exhaustive = thorough;
-    rep.assumptions.push("for C-ABI calls rejected during parameter validation the completion callback is checked as 'at most once' (the property's quantifier lists queue-full and shutdown as the erroring conditions)".into());
     rep.assumptions.push("serial settings, TLS settings and port states are not observable without hardware / are covered by C09; listed as not observed".into());
     rep.finish()
 }
